@@ -636,3 +636,33 @@ Lemma premises_inhabited :
   rule_dom w_rule = true /\ load_rule lib_w true w_rule = Ok [] /\ load_rule lib_w false w_rule = Ok [] /\
   corr_dom w_corr_nofield = true.
 Proof. repeat split; vm_compute; reflexivity. Qed.
+
+(* ------------------------------------------------------------------------------------------ *)
+(* the statements of DESIGN section 7, over the three loaders at once *)
+Definition dom (k : kind) : yv -> bool :=
+  match k with KRule => rule_dom | KCorr => corr_dom | KFilter => filter_dom end.
+
+Theorem sigma_only_all L k c d : dom k d = true -> sigma_only (load L k c d).
+Proof.
+  destruct k; cbn [dom load]; intros Hd.
+  - destruct (rule_holds L d Hd) as [Hs [Hc _]]. destruct c; assumption.
+  - apply corr_sigma_only; exact Hd.
+  - destruct (filter_holds L d Hd) as [Hs [Hc _]]. destruct c; assumption.
+Qed.
+
+Theorem collect_total_all L k d : k <> KCorr -> dom k d = true -> exists errs, load L k true d = Ok errs.
+Proof.
+  destruct k; cbn [dom load]; intros Hk Hd; try congruence.
+  - destruct (rule_holds L d Hd) as [_ [_ [errs [H _]]]]. exists errs; exact H.
+  - destruct (filter_holds L d Hd) as [_ [_ [errs [H _]]]]. exists errs; exact H.
+Qed.
+
+Theorem collect_iff_all L k d errs : load L k true d = Ok errs -> collect_iff (load L k false d) errs.
+Proof.
+  intros H.
+  assert (A : load L k false d = match errs with [] => Ok [] | e :: _ => SigmaErr e end).
+  { destruct k; cbn [load] in *; apply load_with_agrees; exact H. }
+  unfold collect_iff. rewrite A. destruct errs as [|e r]; simpl.
+  - split; [split; reflexivity|]. intros e0. split; discriminate.
+  - split; [split; discriminate|]. intros e0. split; intros X; inversion X; reflexivity.
+Qed.
